@@ -32,7 +32,46 @@ def main():
         return 0 if ok else 1
     mod = importlib.import_module(f"props.{a.pid}")
     cmd = f"./bin/check {a.pid} --tier {a.tier}"
-    return run_check(a.pid, mod.check, a.tier, mod.LEVEL, cmd)
+    fn = mod.check
+    if a.tier == "thorough" and not os.environ.get("VERIF_REPO"):
+        def fn(rep, tier, inner=mod.check):
+            inner(rep, tier)
+            rep.extra["mutation_self_test"] = self_test(a.pid)
+    return run_check(a.pid, fn, a.tier, mod.LEVEL, cmd)
+
+
+def self_test(pid):
+    """thorough tier: every seeded change recorded for this property (seeded/<pid>-m*/patch.diff) is applied to a scratch copy of /repo
+    outside /repo and /verif and the quick check must report a VIOLATION there; harmless edits must stay green.  Reported, never
+    changes the verdict of the unchanged tree."""
+    import glob
+    import shutil
+    import subprocess
+    import tempfile
+    res = []
+    seeds = sorted(glob.glob(os.path.join(VERIF, "seeded", f"{pid}-m*")))
+    harmless = [("rename-local-in-toposort", "autograd/util.py", "s/childless_nodes/ready_nodes/g"), ("reorder-independent-statements", "autograd/tracer.py", "s/    top_boxes = \\[\\]\\n    top_node_type = None/    top_node_type = None\\n    top_boxes = []/")]
+    jobs = [(os.path.basename(d), ("patch", os.path.join(d, "patch.diff")), True) for d in seeds] + [(n, ("sed", f, e), False) for n, f, e in harmless]
+    for name, how, must_fail in jobs:
+        S = tempfile.mkdtemp(prefix="verif-selftest.")
+        try:
+            subprocess.run(["rsync", "-a", "--exclude", ".git", "--exclude", "__pycache__", "/repo/", S + "/"], check=True)
+            if how[0] == "patch":
+                ok = subprocess.run(["patch", "-s", "-p1", "-i", how[1]], cwd=S, capture_output=True).returncode == 0
+            else:
+                ok = subprocess.run(["sed", "-i", "-z", "-e", how[2], os.path.join(S, how[1])], capture_output=True).returncode == 0
+            if not ok:
+                res.append(dict(change=name, applied=False))
+                continue
+            env = dict(os.environ, VERIF_REPO=S, VERIF_OUT=os.path.join(S, "_out"), VERIF_TIER="quick")
+            p = subprocess.run([os.path.join(VERIF, "bin", "check"), pid, "--tier", "quick"], capture_output=True, text=True, env=env, timeout=1800)
+            res.append(dict(change=name, applied=True, expected="VIOLATION" if must_fail else "green", exit=p.returncode,
+                            as_expected=(p.returncode == 1) if must_fail else (p.returncode == 0)))
+        except Exception as e:
+            res.append(dict(change=name, error=str(e)[:100]))
+        finally:
+            shutil.rmtree(S, ignore_errors=True)
+    return res
 
 
 if __name__ == "__main__":
